@@ -116,15 +116,15 @@ Definition next_is (k : kind) (ts : list token) : option (token * list token) :=
   | [] => None
   end.
 
-(* a token that may stand where a search term is expected (repaired code):
+(* a token that may stand where a search term is expected (current code, fix commit 1bd4096):
    a Tag token other than the legacy double brackets *)
 Definition is_operand (t : token) : bool :=
   kind_eqb (tk_kind t) KTag
   && negb (str_eqb (tk_text t) [ch_lbrack; ch_lbrack]) && negb (str_eqb (tk_text t) [ch_rbrack; ch_rbrack]).
 
 (* QueryHandler._handle_grouping_op; [rec] = self._handle_or_op.
-   [fx = false]: before the fix: commit any other token became a search term;
-   [fx = true]: a token that is not an operand raises ValueError. *)
+   [fx = false]: behaviour before fix commit 1bd4096: any other token became a search term;
+   [fx = true]: current code: a token that is not an operand raises ValueError. *)
 Definition p_grouping (fx : bool) (rec : parser) (ts : list token) : res (expr * list token) :=
   match ts with
   | [] => Exn ValueError                                  (* _get_next_token: Parse error *)
@@ -207,18 +207,20 @@ Definition p_or_body (fx : bool) (rec : parser) (ts : list token) : res (expr * 
   let* (e, r) := p_and fx rec ts in
   p_loop (p_and fx rec) KOr EOr (length r) e r.
 
-(* [fuel] = nesting levels still available.  [fx = false]: the fuel is the token
-   count + 1 and never runs out (Python's own recursion limit is not modelled);
-   [fx = true]: the repaired code turns RecursionError into ValueError, modelled
-   as ValueError when the available depth [limit] is exceeded. *)
+(* [fuel] = nesting levels still available to the recursive-descent parser.
+   [fx = false] (behaviour before fix commit 0643166): the fuel is the token
+   count + 1 and never runs out; Python's own recursion limit is not modelled.
+   [fx = true] (current code): the fuel is also bounded by [limit], the nesting
+   depth the interpreter allows; running out of it is Python's RecursionError,
+   a value of its own, distinct from every genuine rejection (ValueError). *)
 Fixpoint p_or (fx : bool) (fuel : nat) (ts : list token) : res (expr * list token) :=
   match fuel with
-  | O => if fx then Exn ValueError else Exn Unmodelled
+  | O => if fx then Exn RecursionError else Exn Unmodelled
   | S f => p_or_body fx (p_or fx f) ts
   end.
 
-(* QueryHandler._parse on the token list *)
-Definition parse_tokens (fx : bool) (limit : nat) (ts : list token) : res expr :=
+(* QueryHandler._parse on the token list; a depth overrun surfaces as RecursionError *)
+Definition parse_raw (fx : bool) (limit : nat) (ts : list token) : res expr :=
   let fuel := if fx then Nat.min (S (length ts)) limit else S (length ts) in
   let* (e, r) := p_or fx fuel ts in
   match r with
@@ -226,7 +228,20 @@ Definition parse_tokens (fx : bool) (limit : nat) (ts : list token) : res expr :
   | _ :: _ => Exn ValueError                              (* Parse error in search string *)
   end.
 
-(* QueryHandler.__init__: _parse(expression_string.casefold()) *)
+(* QueryHandler.__init__ around _parse (commit 0643166):
+   except RecursionError: raise ValueError("... nested too deeply") *)
+Definition parse_tokens (fx : bool) (limit : nat) (ts : list token) : res expr :=
+  match parse_raw fx limit ts with
+  | Exn RecursionError => if fx then Exn ValueError else Exn RecursionError
+  | r => r
+  end.
+
+(* _parse(expression_string.casefold()) before the except clause: tells a genuine
+   rejection (ValueError) from an exhausted depth (RecursionError) *)
+Definition compile_raw (fx : bool) (limit : nat) (q : str) : res expr :=
+  parse_raw fx limit (tokenize (fold q)).
+
+(* QueryHandler.__init__ *)
 Definition compile (fx : bool) (limit : nat) (q : str) : res expr :=
   parse_tokens fx limit (tokenize (fold q)).
 
